@@ -253,4 +253,19 @@ PROPS = {
         "level_text": "The request state machine is proved for every interleaving the client mutex can decide; tied to the code by observing the real adapter over TCP with real timers",
         "level_note": "trusted: Coq kernel, extraction, the fake NATS server and its timing (harness/cmd/natsrun); modelled not verified: nats.go, TCP, Go timers",
     },
+    "C20": {
+        "coq": ["Props/C20.v"],
+        "level": "proof",
+        "harness": ["gwrun"],
+        "stages": [("gw", stage_gw, {"profiles": [("stop", 120, 1500)]})],
+        "rule": "Stop or loss of the messaging connection (closed handler) injected at a random step of histories with idle connections, outstanding "
+                "subscribe/call requests, loading references and pending evictions, one gateway process per history; observed: the stop channel "
+                "reports the injected cause within 11 s, every client socket is closed by the gateway, a new WebSocket connection is not upgraded, "
+                "an HTTP GET gets 503, Start works again and a second Stop completes; expectations computed by the extracted life-cycle model; a "
+                "process death or hang is a violation",
+        "assumptions": ["net/http server shutdown is not exercised (NoHTTP: the handler is driven directly)", "the mock messaging client makes no callbacks after Close, as the adapter contract requires"],
+        "technique": "Coq proof (life-cycle flag machine: connections accepted only while serving, completed Stop leaves none, reports once, restartable) + fault injection of Stop / messaging loss into scheduled histories of the real gateway, compared with the extracted machine",
+        "level_text": "Flag machine proved; the shutdown contract is checked by injecting Stop and connection loss at arbitrary steps of explored histories of the real code",
+        "level_note": "trusted: Coq kernel, extraction, the harness (mock messaging system, consistent mock service, scheduler hooks, frame abstraction in harness/internal/gw); task atomicity (DESIGN section 4); modelled not verified: encoding/json, gorilla/websocket",
+    },
 }
